@@ -154,7 +154,9 @@ func (w *World) Init(s *kernel.Sim) {
 		p.Skews = append(p.Skews, sk)
 	}
 	// p384: a log key RFC 6962 does not provide for, which the front end accepts all the same ("all log key types")
-	p.LogKeyKind = []string{"p256", "rsa2048", "p256", "rsa2048", "p384"}[t.Intn(5)]
+	// p224: likewise, and the smallest curve whose coordinates now and then have a leading zero byte (keys 00 and 02
+	// of the pool do): every encoding of the key must be fixed-width
+	p.LogKeyKind = []string{"p256", "rsa2048", "p256", "rsa2048", "p384", "p224"}[t.Intn(6)]
 	p.Deadline = []time.Duration{10 * time.Second, 500 * time.Millisecond, 2 * time.Second, time.Minute}[t.Intn(4)]
 	p.Mask = t.Chance(1, 2)
 	p.Mapper = t.Chance(1, 3)
@@ -240,7 +242,7 @@ func (w *World) build() {
 
 	epoch := time.Now()
 	w.pki = NewPKI(t, epoch, 3, 3)
-	w.logKey = oracle.Keys(p.LogKeyKind)[t.Intn(2)]
+	w.logKey = oracle.Keys(p.LogKeyKind)[t.Intn(min(3, len(oracle.Keys(p.LogKeyKind))))]
 	w.prefix = "/sim"
 	w.be = &Backend{S: s, Log: reflog.New(7001, epoch.Add(p.BackendAhead).UnixNano()), Name: "be", Ahead: p.BackendAhead}
 	rootsFile := WriteRoots(s.TB.TempDir(), "roots.pem", w.pki.Roots)
@@ -302,7 +304,7 @@ func (w *World) build() {
 			sk = k[1]
 		}
 		if t.Chance(1, 2) {
-			sk = oracle.Keys(map[string]string{"p256": "rsa2048", "rsa2048": "p256", "p384": "p256"}[p.LogKeyKind])[0]
+			sk = oracle.Keys(map[string]string{"p256": "rsa2048", "rsa2048": "p256", "p384": "p256", "p224": "p256"}[p.LogKeyKind])[0]
 		}
 		sb := &Backend{S: s, Log: reflog.New(7003, epoch.UnixNano()), Name: "be2"}
 		spriv, spub := LogKey(sk)
@@ -572,6 +574,7 @@ func (w *World) genBad() *Op {
 	type bad struct{ kind, path, method, query, body, class string }
 	big := "9223372036854775808"
 	maxU := "18446744073709551615"
+	maxI := "9223372036854775807"
 	cases := []bad{
 		{"get-sth", "/ct/v1/get-sth", "POST", "", "", "method"},
 		{"add-chain", "/ct/v1/add-chain", "GET", "", "", "method"},
@@ -632,6 +635,11 @@ func (w *World) genBad() *Op {
 		{"get-entry-and-proof", "/ct/v1/get-entry-and-proof", "GET", q("leaf_index", "-1", "tree_size", "1"), "", "param.range"},
 		{"get-entry-and-proof", "/ct/v1/get-entry-and-proof", "GET", q("leaf_index", "2", "tree_size", "2"), "", "param.range"},
 		{"get-entry-and-proof", "/ct/v1/get-entry-and-proof", "GET", q("leaf_index", "0x1", "tree_size", "2"), "", "param.malformed"},
+		// the largest int64: parses, and is out of range - also after "+ 1"
+		{"get-entry-and-proof", "/ct/v1/get-entry-and-proof", "GET", q("leaf_index", maxI, "tree_size", "2"), "", "param.range"},
+		{"get-entry-and-proof", "/ct/v1/get-entry-and-proof", "GET", q("leaf_index", maxI, "tree_size", maxI), "", "param.range"},
+		{"get-sth-consistency", "/ct/v1/get-sth-consistency", "GET", q("first", maxI, "second", "2"), "", "param.range"},
+		{"get-entries", "/ct/v1/get-entries", "GET", q("start", maxI, "end", "2"), "", "param.range"},
 	}
 	c := cases[t.Intn(len(cases))]
 	op := w.newOp(c.kind)
